@@ -9,7 +9,7 @@ OUT=/verif/seeded/${P}-${NAME}
 [ -f $SRC/$V.diff ] || { echo "no $SRC/$V.diff"; exit 2; }
 git -C /repo worktree remove --force $W 2>/dev/null
 git -C /repo worktree add -q --detach $W HEAD || exit 2
-export OMP_NUM_THREADS=1 XLA_FLAGS="--xla_cpu_multi_thread_eigen=false intra_op_parallelism_threads=1" PYTHONDONTWRITEBYTECODE=1
+export PYTHONPATH=$W OMP_NUM_THREADS=1 XLA_FLAGS="--xla_cpu_multi_thread_eigen=false intra_op_parallelism_threads=1" PYTHONDONTWRITEBYTECODE=1
 mkdir -p $W/MUTANT; cp $SRC/$V.diff $SRC/demo_$V.py $W/MUTANT/
 cd $W
 where=$(/venv/bin/python -W ignore -c "import gaussian_toolbox; print(gaussian_toolbox.__file__)" 2>/dev/null)
